@@ -1,14 +1,36 @@
 // ---- shard-level abstractions used by C01/C02/C03/C08 contracts
 verus! {
-spec fn expired(sv: StoredValue) -> bool {
+pub open spec fn expired(sv: StoredValue) -> bool {
     sv.metadata.expires_at matches Some(d) && spec_now() > iv(d)
 }
-/// C02 representation invariant: the sweeper's deadline index names exactly the keys that carry a deadline, with that deadline
-spec fn index_ok(s: DatabaseShard) -> bool {
-    &&& forall|k: Vec<u8>| #[trigger] s.expiring_keys@.contains_key(k) ==> s.data@.contains_key(k) && s.data@[k].metadata.expires_at == Some(s.expiring_keys@[k])
-    &&& forall|k: Vec<u8>| #[trigger] s.data@.contains_key(k) && s.data@[k].metadata.expires_at is Some ==> s.expiring_keys@.contains_key(k)
+/// spec view of a shard: key space, deadline index, WATCH log
+pub struct SV { pub data: Map<Vec<u8>, StoredValue>, pub exp: Map<Vec<u8>, Instant>, pub marks: Set<Seq<u8>> }
+#[verifier::inline]
+spec fn sv(s: DatabaseShard) -> SV { SV { data: s.data@, exp: s.expiring_keys@, marks: s.watch_tracker.marks@ } }
+/// the shard AS AN OPERATION ON `k` SEES IT (lazy expiry, C02): if k's deadline has passed it is gone from the key space and
+/// from the index and has been marked for WATCH — "from the deadline on it is absent to every command"
+spec fn was_expired(s: DatabaseShard, k: Vec<u8>) -> bool { s.data@.contains_key(k) && expired(s.data@[k]) }
+#[verifier::inline]
+spec fn eff(s: DatabaseShard, k: Vec<u8>) -> SV {
+    SV {
+        data: if was_expired(s, k) { s.data@.remove(k) } else { s.data@ },
+        exp: if was_expired(s, k) { s.expiring_keys@.remove(k) } else { s.expiring_keys@ },
+        marks: if was_expired(s, k) { s.watch_tracker.marks@.insert(k@) } else { s.watch_tracker.marks@ },
+    }
 }
-spec fn marks(s: DatabaseShard) -> Set<Seq<u8>> { s.watch_tracker.marks@ }
+/// C02 representation invariant: the sweeper's deadline index names exactly the keys that carry a deadline, with that deadline
+spec fn index_ok_m(data: Map<Vec<u8>, StoredValue>, exp: Map<Vec<u8>, Instant>) -> bool {
+    &&& forall|k: Vec<u8>| #[trigger] exp.contains_key(k) ==> data.contains_key(k) && data[k].metadata.expires_at == Some(exp[k])
+    &&& forall|k: Vec<u8>| #[trigger] data.contains_key(k) && data[k].metadata.expires_at is Some ==> exp.contains_key(k)
+}
+#[verifier::inline]
+spec fn index_ok(s: SV) -> bool { index_ok_m(s.data, s.exp) }
+proof fn lemma_eff_keeps_index(s: DatabaseShard, k: Vec<u8>)
+    ensures index_ok(sv(s)) ==> index_ok(eff(s, k)), eff(s, k).data.contains_key(k) ==> !expired(eff(s, k).data[k]),
+{
+}
+#[verifier::inline]
+spec fn marks(s: SV) -> Set<Seq<u8>> { s.marks }
 /// abstract value of a stored object (containers by their mathematical view, so that "unchanged" does not depend on
 /// the identity of std container objects)
 pub enum ValueView {
@@ -25,16 +47,19 @@ spec fn vview(v: Value) -> ValueView {
     }
 }
 /// observable state of a key: abstract value and deadline
-spec fn key_state(s: DatabaseShard, k: Vec<u8>) -> Option<(ValueView, Option<Instant>)> {
-    if s.data@.contains_key(k) { Some((vview(s.data@[k].value), s.data@[k].metadata.expires_at)) } else { None }
+spec fn key_state_m(data: Map<Vec<u8>, StoredValue>, k: Vec<u8>) -> Option<(ValueView, Option<Instant>)> {
+    if data.contains_key(k) { Some((vview(data[k].value), data[k].metadata.expires_at)) } else { None }
 }
-/// frame + WATCH contract shared by every single-key operation on a shard:
+#[verifier::inline]
+spec fn key_state(s: SV, k: Vec<u8>) -> Option<(ValueView, Option<Instant>)> { key_state_m(s.data, k) }
+/// frame + WATCH contract shared by every single-key operation on a shard (o = the state the operation sees, f = after):
 ///  * nothing but `key` changes in the key space or in the deadline index,
-///  * no key other than `key` gets marked (no false aborts), and if `key`'s stored state changed it IS marked (C08),
+///  * no key other than `key` gets marked (no false aborts), and if `key`'s observable state changed it IS marked (C08),
 ///  * the deadline-index invariant is preserved (C02).
-spec fn step_ok(o: DatabaseShard, f: DatabaseShard, key: Vec<u8>) -> bool {
-    &&& f.data@.remove(key) =~= o.data@.remove(key)
-    &&& f.expiring_keys@.remove(key) =~= o.expiring_keys@.remove(key)
+#[verifier::inline]
+spec fn step_ok(o: SV, f: SV, key: Vec<u8>) -> bool {
+    &&& f.data.remove(key) =~= o.data.remove(key)
+    &&& f.exp.remove(key) =~= o.exp.remove(key)
     &&& marks(f).subset_of(marks(o).insert(key@))
     &&& marks(o).subset_of(marks(f))
     &&& (key_state(f, key) != key_state(o, key) ==> marks(f).contains(key@))
@@ -43,24 +68,28 @@ spec fn step_ok(o: DatabaseShard, f: DatabaseShard, key: Vec<u8>) -> bool {
 /// variant of step_ok for objects mutated through SHARED references (sorted sets, streams): their member state is not
 /// part of the shard's spec state, so "changed ==> marked" is stated per operation instead; frame, no-foreign-marks and
 /// the deadline-index invariant are as in step_ok
-spec fn step_ok_shared(o: DatabaseShard, f: DatabaseShard, key: Vec<u8>) -> bool {
-    &&& f.data@.remove(key) =~= o.data@.remove(key)
-    &&& f.expiring_keys@.remove(key) =~= o.expiring_keys@.remove(key)
+#[verifier::inline]
+spec fn step_ok_shared(o: SV, f: SV, key: Vec<u8>) -> bool {
+    &&& f.data.remove(key) =~= o.data.remove(key)
+    &&& f.exp.remove(key) =~= o.exp.remove(key)
     &&& marks(f).subset_of(marks(o).insert(key@))
     &&& marks(o).subset_of(marks(f))
-    &&& (o.data@.contains_key(key) != f.data@.contains_key(key) ==> marks(f).contains(key@))
+    &&& (o.data.contains_key(key) != f.data.contains_key(key) ==> marks(f).contains(key@))
     &&& (index_ok(o) ==> index_ok(f))
 }
 /// C03 data invariant: "a collection that becomes empty ceases to exist as a key" — no empty list/set/hash is stored
-spec fn coll_ok(s: DatabaseShard) -> bool {
-    forall|k: Vec<u8>| #[trigger] s.data@.contains_key(k) ==> (match s.data@[k].value {
+spec fn coll_ok_m(data: Map<Vec<u8>, StoredValue>) -> bool {
+    forall|k: Vec<u8>| #[trigger] data.contains_key(k) ==> (match data[k].value {
         Value::List(l) => l@.len() > 0,
         Value::Set(m) => m@.len() > 0,
         Value::Hash(h) => h@.len() > 0,
         _ => true,
     })
 }
-spec fn unchanged(o: DatabaseShard, f: DatabaseShard) -> bool {
-    f.data@ =~= o.data@ && f.expiring_keys@ =~= o.expiring_keys@ && marks(f) =~= marks(o)
+#[verifier::inline]
+spec fn coll_ok(s: SV) -> bool { coll_ok_m(s.data) }
+#[verifier::inline]
+spec fn unchanged(o: SV, f: SV) -> bool {
+    f.data =~= o.data && f.exp =~= o.exp && marks(f) =~= marks(o)
 }
 }
